@@ -6,6 +6,8 @@
 //!                 Lean driver (Eval/Spill.lean), and the oracle checks on the implementation:
 //!                 the spill invariant, exactness of every spilled block, #SPILL! iff blocked or
 //!                 out of grid.
+//!  * `c31-agg`  : result sizes/values that depend on an aggregate over a range another array spills
+//!                 into at its edge; single evaluate; entry orders; Model and UserModel (oracle only).
 //!  * `c31-user` : `UserModel` histories with undo/redo, row insertion/deletion and range clears;
 //!                 invariant + exactness oracle only.
 //!
@@ -166,6 +168,51 @@ fn check_exact(m: &Model, fails: &mut Vec<(String, String)>) -> usize {
     n
 }
 
+/// values + structure of every non-empty cell, and the positions of anchors showing #SPILL!
+fn full_snapshot(m: &Model) -> (Vec<String>, Vec<(i32, i32)>) {
+    let mut out = vec![];
+    let mut errs = vec![];
+    for ((r, c), cell) in sorted_cells(m) {
+        if matches!(cell, Cell::EmptyCell { .. }) {
+            continue;
+        }
+        if is_spill_error(&cell) {
+            errs.push((r, c));
+        }
+        let k = match &cell {
+            Cell::ArrayFormula { r: (w, h), .. } => format!("a{w}x{h}"),
+            Cell::SpillCell { a, .. } => format!("s{},{}", a.0, a.1),
+            Cell::CellFormula { .. } => "f".into(),
+            _ => "p".into(),
+        };
+        out.push(format!("{}:{k}={:?}", a1(r, c), m.get_cell_value_by_index(0, r, c)));
+    }
+    (out, errs)
+}
+
+/// NEVER STALE, observed directly: right after an evaluation, evaluating once more (on a copy)
+/// must not change any cell — otherwise the first evaluation left something that does not
+/// correspond to the current results (a block of the wrong size, an old value, a stale #SPILL!)
+fn check_stable(m: &Model, fails: &mut Vec<(String, String)>) {
+    let mut copy = match Model::from_bytes(&m.to_bytes(), "en") {
+        Ok(x) => x,
+        Err(_) => return,
+    };
+    // the copy must first BE the same sheet (otherwise the comparison is about C26, not C31)
+    let before = full_snapshot(m);
+    if full_snapshot(&copy).0 != before.0 {
+        return;
+    }
+    copy.evaluate();
+    let after = full_snapshot(&copy);
+    if after.0 != before.0 {
+        let diff: Vec<String> = before.0.iter().filter(|x| !after.0.contains(x)).take(4).cloned().collect();
+        let diff2: Vec<String> = after.0.iter().filter(|x| !before.0.contains(x)).take(4).cloned().collect();
+        let sig = if before.1 != after.1 { "c31:unstable-after-evaluate:spill-error-changed" } else { "c31:unstable-after-evaluate" };
+        fails.push((sig.into(), format!("a second evaluate changes the sheet: {:?} becomes {:?}", diff, diff2)));
+    }
+}
+
 fn is_spill_error(c: &Cell) -> bool {
     matches!(c, Cell::ArrayFormula { v: FormulaValue::Error { ei: Error::SPILL, .. }, .. })
 }
@@ -230,6 +277,7 @@ fn eval_hist(req: &str) -> ImplOut {
                 dumps.push(dump(&m));
                 check_invariant(&m, &mut fails);
                 check_exact(&m, &mut fails);
+                check_stable(&m, &mut fails);
                 // #SPILL! exactly when the natural block is blocked or leaves the grid
                 if p.get(1).map(|x| *x != "-").unwrap_or(false) {
                     for spec in p[1].split('_') {
@@ -332,6 +380,7 @@ fn eval_user(req: &str) -> ImplOut {
         let before = fails.len();
         check_invariant(um.get_model(), &mut fails);
         n_checked += check_exact(um.get_model(), &mut fails);
+        check_stable(um.get_model(), &mut fails);
         for f in fails.iter_mut().skip(before) {
             f.1 = format!("after op #{k} `{}`: {}", p[..p.len().min(3)].join("."), f.1);
         }
@@ -512,6 +561,207 @@ fn gen_user(ctx: &Ctx, sink: &mut dyn FnMut(String)) {
     }
 }
 
+// ---------- c31-agg: result sizes that depend on an aggregate over an area another array spills into ----------
+
+/// One geometry: an anchor Y with a literal shape; a range R that Y's spill touches ONLY in R's
+/// last / first row or last / first column (or R is a single row / column); plain numbers in the
+/// rest of R; an anchor X (before or after Y in natural order, its own area free) whose result
+/// size or values are an aggregate over R.  Returns the cell inputs and the spec of X.
+pub fn gen_agg_set(rng: &mut Rng) -> (Vec<((i32, i32), String)>, String) {
+    let (ry, cy) = (rng.range(4, 7) as i32, rng.range(4, 6) as i32);
+    let (hy, wy) = (rng.range(1, 3) as i32, rng.range(1, 3) as i32);
+    let k = rng.range(0, 2) as i32; // extra rows / columns of R beyond the one Y touches
+    let side = rng.below(4);
+    // R = (r1,c1,r2,c2)
+    let (r1, c1, r2, c2) = match side {
+        0 => (ry - k, cy - rng.range(0, 1) as i32, ry, cy + wy - 1 + rng.range(0, 1) as i32), // Y touches R's LAST row
+        1 => (ry + hy - 1, cy - rng.range(0, 1) as i32, ry + hy - 1 + k, cy + wy - 1 + rng.range(0, 1) as i32), // FIRST row
+        2 => (ry - rng.range(0, 1) as i32, cy - k, ry + hy - 1 + rng.range(0, 1) as i32, cy), // LAST column
+        _ => (ry - rng.range(0, 1) as i32, cy + wy - 1, ry + hy - 1 + rng.range(0, 1) as i32, cy + wy - 1 + k), // FIRST column
+    };
+    let mut cells: Vec<((i32, i32), String)> = vec![];
+    cells.push(((ry, cy), format!("=SEQUENCE({hy},{wy})")));
+    for r in r1..=r2 {
+        for c in c1..=c2 {
+            let in_y = r >= ry && r < ry + hy && c >= cy && c < cy + wy;
+            if !in_y && rng.chance(2, 3) {
+                cells.push(((r, c), rng.range(0, 2).to_string()));
+            }
+        }
+    }
+    let before = rng.chance(2, 3);
+    let rx = if before { rng.range(1, 2) as i32 } else { rng.range(12, 13) as i32 };
+    let cx = 14;
+    let range = format!("{}:{}", a1(r1, c1), a1(r2, c2));
+    let (kind, agg, text) = match rng.below(8) {
+        0 | 1 => ("V", "SUM", format!("=SEQUENCE(SUM({range}))")),
+        2 => ("V", "COUNT", format!("=SEQUENCE(COUNT({range}))")),
+        3 => ("V", "MAX", format!("=SEQUENCE(MAX({range}))")),
+        4 => ("H", "SUM", format!("=SEQUENCE(1,SUM({range}))")),
+        5 => ("H", "COUNT", format!("=SEQUENCE(1,COUNT({range}))")),
+        _ => ("M", "-", format!("={range}*2")),
+    };
+    cells.push(((rx, cx), text));
+    // readers of X, to make stale values visible too
+    if rng.chance(1, 2) {
+        cells.push(((rx, cx - 2), format!("=SUM({}#)", a1(rx, cx))));
+    }
+    (cells, format!("{rx},{cx},{kind},{agg},{r1},{c1},{r2},{c2}"))
+}
+
+fn shuffle<T>(xs: &mut [T], rng: &mut Rng) {
+    for i in (1..xs.len()).rev() {
+        let j = rng.below(i as u64 + 1) as usize;
+        xs.swap(i, j);
+    }
+}
+
+fn number_at(m: &Model, r: i32, c: i32) -> Option<f64> {
+    match m.get_cell_value_by_index(0, r, c) {
+        Ok(CellValue::Number(x)) => Some(x),
+        _ => None,
+    }
+}
+
+fn eval_agg(req: &str) -> ImplOut {
+    let f: Vec<&str> = req.split(' ').collect();
+    let (mode, seed) = match f.get(2).and_then(|x| x.split_once('.')) {
+        Some((a, b)) => (a.parse::<u32>().unwrap_or(0), b.parse::<u64>().unwrap_or(1)),
+        None => return ImplOut::new("bad-request".into()).trivial(),
+    };
+    let cells: Vec<((i32, i32), String)> = match f.get(3) {
+        Some(x) => x
+            .split('|')
+            .filter_map(|e| {
+                let p: Vec<&str> = e.split('.').collect();
+                Some(((p.first()?.parse().ok()?, p.get(1)?.parse().ok()?), unhex(p.get(2)?)?))
+            })
+            .collect(),
+        None => return ImplOut::new("bad-request".into()).trivial(),
+    };
+    let spec: Vec<&str> = f.get(4).map(|x| x.split(',').collect()).unwrap_or_default();
+    if spec.len() != 8 {
+        return ImplOut::new("bad-request".into()).trivial();
+    }
+    let n = |i: usize| -> i32 { spec[i].parse().unwrap_or(0) };
+    let (rx, cx, kind, agg, r1, c1, r2, c2) = (n(0), n(1), spec[2], spec[3], n(4), n(5), n(6), n(7));
+    let mut idx: Vec<usize> = (0..cells.len()).collect();
+    let mut rng = Rng::new(seed);
+    if mode > 0 {
+        shuffle(&mut idx, &mut rng);
+    }
+    // the state after ONE evaluation following the last edit
+    let m: Model = match mode {
+        0 | 1 => {
+            let mut m = Model::new_empty("c31", "en", "UTC", "en").unwrap();
+            for &i in &idx {
+                let ((r, c), t) = &cells[i];
+                let _ = m.set_user_input(0, *r, *c, t.clone());
+                if mode == 1 {
+                    m.evaluate();
+                }
+            }
+            if mode == 0 {
+                m.evaluate();
+            }
+            m
+        }
+        _ => {
+            let mut um = UserModel::new_empty("c31", "en", "UTC", "en").unwrap();
+            for &i in &idx {
+                let ((r, c), t) = &cells[i];
+                let _ = um.set_user_input(0, *r, *c, t);
+            }
+            match Model::from_bytes(&um.get_model().to_bytes(), "en") {
+                Ok(m) => m,
+                Err(_) => return ImplOut::new("copy-failed".into()).trivial(),
+            }
+        }
+    };
+    let mut fails: Vec<(String, String)> = vec![];
+    check_invariant(&m, &mut fails);
+    check_exact(&m, &mut fails);
+    check_stable(&m, &mut fails);
+    // the natural result of X over the values the sheet shows NOW
+    let mut nums: Vec<f64> = vec![];
+    for r in r1..=r2 {
+        for c in c1..=c2 {
+            if let Some(x) = number_at(&m, r, c) {
+                nums.push(x);
+            }
+        }
+    }
+    let aggv = match agg {
+        "SUM" => nums.iter().sum::<f64>(),
+        "COUNT" => nums.len() as f64,
+        "MAX" => nums.iter().cloned().fold(0.0, f64::max),
+        _ => 0.0,
+    };
+    let natural: Option<(i32, i32)> = match kind {
+        "V" if aggv >= 1.0 => Some((aggv as i32, 1)),
+        "H" if aggv >= 1.0 => Some((1, aggv as i32)),
+        "M" => Some((r2 - r1 + 1, c2 - c1 + 1)),
+        _ => None,
+    };
+    let mut out = ImplOut::new(String::new());
+    out = out.tag(&format!("mode:{mode}")).tag(&format!("kind:{kind}{agg}"));
+    if let Some((h, w)) = natural {
+        match cell_at(&m, rx, cx) {
+            Some(Cell::ArrayFormula { r: (sw, sh), .. }) => {
+                if (*sh, *sw) != (h, w) {
+                    fails.push(("c31:block-size-differs-from-current-result".into(), format!(
+                        "{} should now produce {h}x{w} ({agg} over {}:{} = {aggv}) but its range is {sh}x{sw}",
+                        a1(rx, cx), a1(r1, c1), a1(r2, c2))));
+                } else {
+                    // element values for the two families
+                    for i in 0..h {
+                        for j in 0..w {
+                            let want = if kind == "M" {
+                                2.0 * number_at(&m, r1 + i, c1 + j).unwrap_or(0.0)
+                            } else {
+                                (i * w + j + 1) as f64
+                            };
+                            let got = number_at(&m, rx + i, cx + j);
+                            if kind == "M" && number_at(&m, r1 + i, c1 + j).is_none() && cell_at(&m, r1 + i, c1 + j).map(|c| !matches!(c, Cell::EmptyCell { .. })).unwrap_or(false) {
+                                continue; // a non-number source cell: not this oracle's business
+                            }
+                            if got != Some(want) {
+                                fails.push(("c31:spilled-value-differs-from-current-result".into(), format!(
+                                    "{} element ({i},{j}) shows {:?}, the current inputs give {want}", a1(rx, cx), got)));
+                            }
+                        }
+                    }
+                }
+                out = out.tag("x:checked");
+            }
+            other => fails.push(("c31:anchor-missing".into(), format!("{} is {:?}", a1(rx, cx), other.map(kind_of)))),
+        }
+    } else {
+        out = out.tag("x:scalar-or-error").trivial();
+    }
+    out.oracle = fails;
+    out
+}
+
+fn gen_agg(ctx: &Ctx, sink: &mut dyn FnMut(String)) {
+    let mut rng = Rng::new(ctx.seed ^ 0xC31_0002);
+    // the integrator's seed-defect shape, then the class
+    let enc = |cells: &[((i32, i32), String)]| cells.iter().map(|((r, c), t)| format!("{r}.{c}.{}", hex(t))).collect::<Vec<_>>().join("|");
+    let demo = vec![((1, 1), "=SEQUENCE(SUM(C1:C3))".to_string()), ((1, 3), "1".to_string()), ((3, 2), "=SEQUENCE(1,2)".to_string())];
+    sink(format!("c31 agg 0.1 {} 1,1,V,SUM,1,3,3,3", enc(&demo)));
+    let count = if ctx.tier == Tier::Quick { 120 } else { 6000 };
+    for _ in 0..count {
+        let mut r = rng.fork();
+        let (cells, spec) = gen_agg_set(&mut r);
+        // once at the end; then every edit followed by an evaluate, in several entry orders, on Model and UserModel
+        sink(format!("c31 agg 0.1 {} {spec}", enc(&cells)));
+        for _ in 0..3 {
+            sink(format!("c31 agg 1.{} {} {spec}", r.next() % 1_000_000, enc(&cells)));
+            sink(format!("c31 agg 2.{} {} {spec}", r.next() % 1_000_000, enc(&cells)));
+        }
+    }
+}
+
 pub fn suites() -> Vec<Suite> {
     vec![
         Suite {
@@ -528,6 +778,14 @@ pub fn suites() -> Vec<Suite> {
             modelled: false,
             gen: gen_user,
             eval: eval_user,
+            exhaustive: never,
+        },
+        Suite {
+            name: "c31-agg",
+            rule: "two dynamic arrays X and Y where the size (SEQUENCE(SUM/COUNT/MAX(range)), vertical and horizontal) or the values (range*2) of X depend on a RANGE that Y's spill touches only in its last / first row or last / first column (ranges of 1-3 rows/columns), X before or after Y in evaluation order; built once with a single evaluate, and in shuffled entry orders with an evaluate after every edit on Model and on UserModel; oracle after the single last evaluation: the size of X equals the aggregate over the values the sheet shows, its elements are those of the current result, spill invariant, CSE exactness, and a second evaluate changes nothing; non-trivial = X has an array result",
+            modelled: false,
+            gen: gen_agg,
+            eval: eval_agg,
             exhaustive: never,
         },
     ]
